@@ -114,3 +114,73 @@ extern "C" void h_fragment(void)
   if (n == 12 && es.size() == FRAG_ENTRIES) vf_witness("twelve-character title and a full fragment");
   if (n == 0) vf_witness("empty title");
 }
+
+// ---------------------------------------------------------------- C07: catalogue validation and Opus disc catalogue on arbitrary sectors
+extern "C" void h_fragment_valid(void)
+{
+  DFS::SectorBuffer s0 = symbolic_sector(8 + 8 * FRAG_ENTRIES), s1 = symbolic_sector(8 + 8 * FRAG_ENTRIES);
+  vf_assume(s1[5] <= 8 * FRAG_ENTRIES);
+  const unsigned which = vf_nondet_u8() % 3;
+  const DFS::Format fmt = which == 0 ? DFS::Format::DFS : which == 1 ? DFS::Format::WDFS : DFS::Format::OpusDDOS;
+  DFS::CatalogFragment f(fmt, s0, s1);
+  std::string error;
+  bool threw = false, ok = false;
+  try { ok = f.valid(error); } catch (std::exception&) { threw = true; }
+  vf_assert(!threw, "catalogue validation never throws");
+  if (ok) vf_assert(s1[5] % 8 == 0, "a valid fragment has a whole number of entries");
+  vf_observe(ok);
+  if (ok && s1[5] == 8 * FRAG_ENTRIES) vf_witness("full valid fragment");
+  if (!ok) vf_witness("invalid fragment");
+}
+
+extern "C" void h_opus_catalogue(void)
+{
+  DFS::SectorBuffer s16 = symbolic_sector(24);
+  bool threw_bad = false, threw_other = false; size_t nvol = 0; bool sorted_ok = true, within = true;
+  try
+    {
+      DFS::internal::OpusDiscCatalogue dc(s16, std::nullopt);
+      const auto locs = dc.get_volume_locations();
+      nvol = locs.size();
+      const unsigned long total = (s16[1] << 8) | s16[2];
+      for (size_t i = 0; i < 8; ++i)
+        if (i < nvol)
+          {
+            if (i + 1 < nvol && locs[i].start_sector() + locs[i].len() != locs[i + 1].start_sector()) sorted_ok = false;
+            if (locs[i].start_sector() + locs[i].len() > total) within = false;
+          }
+    }
+  catch (DFS::BadFileSystem&) { threw_bad = true; }
+  catch (std::exception&) { threw_other = true; }
+  vf_assert(!threw_other, "a bad Opus volume table is reported as BadFileSystem");
+  if (!threw_bad)
+    {
+      vf_assert(sorted_ok, "volumes are sorted by start and each ends where the next begins");
+      vf_assert(within, "no volume extends beyond the total sector count recorded in sector 16");
+    }
+  vf_observe(threw_bad); vf_observe(nvol);
+  if (!threw_bad && nvol == 3) vf_witness("three volumes accepted");
+  if (threw_bad) vf_witness("volume table rejected");
+}
+
+// ---------------------------------------------------------------- C18: --verbose changes nothing but standard error (2-safety)
+extern "C" void h_verbose_watford(void)
+{
+  LazyMedium m;
+  m.size = vf_nondet_u16();
+  DFS::SectorBuffer s1 = symbolic_sector(256);
+  DFS::SectorBuffer s2 = symbolic_sector(8);
+  m.put(2, s2);
+  DFS::verbose = false;
+  const bool quiet = DFS::internal::smells_like_watford(m, s1);
+  const unsigned ev_quiet = vfio::nev, reads_quiet = m.reads;
+  DFS::verbose = true;
+  const bool loud = DFS::internal::smells_like_watford(m, s1);
+  DFS::verbose = false;
+  vf_assert(quiet == loud, "the verdict does not depend on --verbose");
+  vf_assert(ev_quiet == 0, "nothing at all is printed without --verbose");
+  vf_assert(m.reads == 2 * reads_quiet, "the same sectors are read");
+  for (unsigned i = 0; i < 8; ++i) if (i < vfio::nev) vf_assert(vfio::ev_stream[i] == 2, "everything --verbose adds goes to standard error");
+  vf_observe(quiet); vf_observe(vfio::nev);
+  if (vfio::nev > 0) vf_witness("verbose explanation printed");
+}
